@@ -11,14 +11,18 @@ Proved on the model of `SvgBuilder` (after the `fix:` commit df30cdc, which esca
                           colour given to that call), a single square layer otherwise; setters other
                           than shape()/shape_color() never change the layers.
 * `C12_default_colours` : default background #ffffff, module colour #000000, margin 4.
-The document-level theorem `check e (toStr b q) = none` (Spec.SvgParse on the model's string) is not
-yet proved symbolically (partial); it is evaluated on every generated rendering, real and model.
+* `C12_subpaths`        : for EVERY matrix, margin and built-in shape the `d` attribute of a layer reads back
+                          (Spec.SvgParse.cellsOf) as exactly one sub-path per dark module anchored at
+                          (column+margin, row+margin), row-major; `pathStr_eq` ties it to `path()`.
+The whole-document reading `check e (toStr b q) = none` (tags, attributes, order of elements) is
+evaluated on every generated rendering, real and model; its XML-tokenizer part is not proved symbolically.
 -/
 import FastQr.Model.Svg
 import FastQr.Spec.SvgParse
+import FastQr.Proofs.SvgPath
 
 namespace FastQr.Props.C12
-open FastQr Model Model.Svg Spec.SvgParse
+open FastQr Model Model.Svg Spec.SvgParse Proofs.SvgPath
 
 theorem unescape_escapeChar (c : Char) (r : List Char) (ur : List Char) (h : unescape r = some ur) :
     unescape (escapeChar c ++ r) = some (c :: ur) := by
@@ -123,5 +127,43 @@ theorem C12_default_colours :
 /-! non-vacuity -/
 example : String.ofList (escape "a\"b<c&d".toList) = "a&quot;b&lt;c&amp;d" := by decide +kernel
 example : rgba2hex 255 0 16 255 = "#ff0010" ∧ rgba2hex 255 0 16 254 = "#ff0010fe" := by decide +kernel
+
+/-- the `d` attribute of a layer drawn with `shape` -/
+def layerD (b : Builder) (q : QR) (shape : Nat) : String :=
+  String.join ((darkCells q).map fun (y, x) => shapeStr shape (y + b.margin) (x + b.margin))
+
+theorem pathStr_eq (b : Builder) (q : QR) :
+    pathStr b q = String.join ((layers b).map fun (shape, col) =>
+      "<path d=\"" ++ layerD b q shape ++
+        (if shape == 2 then s!"\" stroke-width=\".3\" stroke-linejoin=\"round\" stroke=\"{col.getD b.dot}" else "") ++
+        s!"\" fill=\"{col.getD b.dot}\"/>") := rfl
+
+/-- **C12 (exactly the dark modules)**: for every matrix, margin and built-in shape, the `d` attribute of
+the layer is read by the specification's path reader as exactly one sub-path per dark module, anchored
+at (column + margin, row + margin), in row-major order — none for light modules or the quiet zone -/
+theorem C12_subpaths (b : Builder) (q : QR) (shape : Nat) (bg : String) (cols : List String) (img : Option String) :
+    cellsOf (layerD b q shape) =
+      some (expectedCells { n := q.n, margin := b.margin, dark := q.value, background := bg, layerColors := cols, image := img }) := by
+  have h := cellsOf_pathData shape ((darkCells q).map fun yx => (yx.1 + b.margin, yx.2 + b.margin))
+  simp only [List.map_map] at h
+  have e1 : layerD b q shape = String.join (List.map ((fun (yx : Nat × Nat) => shapeStr shape yx.1 yx.2) ∘
+      fun yx => (yx.1 + b.margin, yx.2 + b.margin)) (darkCells q)) := rfl
+  rw [e1, h]
+  congr 1
+  simp only [darkCells, expectedCells, List.map_flatMap, List.map_filterMap]
+  apply flatMap_congr''
+  intro r _
+  apply filterMap_congr''
+  intro c _
+  cases q.value r c <;> simp
+where
+  filterMap_congr'' {α β : Type} {f g : α → Option β} : ∀ {l : List α}, (∀ a ∈ l, f a = g a) → l.filterMap f = l.filterMap g
+  | [], _ => rfl
+  | x :: xs, h => by
+    rw [List.filterMap_cons, List.filterMap_cons, h x (by simp), filterMap_congr'' (fun a ha => h a (by simp [ha]))]
+  flatMap_congr'' {α β : Type} {f g : α → List β} : ∀ {l : List α}, (∀ a ∈ l, f a = g a) → l.flatMap f = l.flatMap g
+  | [], _ => rfl
+  | x :: xs, h => by
+    rw [List.flatMap_cons, List.flatMap_cons, h x (by simp), flatMap_congr'' (fun a ha => h a (by simp [ha]))]
 
 end FastQr.Props.C12
